@@ -49,7 +49,11 @@ def construct(m, cls, mid, pbf, kwargs):
         pristine = None
     try:
         with envrot.hostile(envrot.key(cls, mid, len(kwargs), m)):
-            msg = UBXMessage(bytes([cls]), bytes([mid]), m, parsebitfield=pbf, **kwargs)
+            if (cls + 3 * mid + len(kwargs)) % 5 == 2:
+                # parsebitfield positionally, the mode as a member of an IntEnum
+                msg = UBXMessage(bytes([cls]), bytes([mid]), envrot.mode_arg(m, 5), pbf, **kwargs)
+            else:
+                msg = UBXMessage(bytes([cls]), bytes([mid]), m, parsebitfield=pbf, **kwargs)
             if pristine is not None and any(isinstance(v, (list, bytearray, dict)) for k, v in vars(msg).items() if not k.startswith("_")):
                 # the message hands mutable values (array attributes) to its owner: an owner that changed them in place builds the
                 # same message again from (a pristine copy of) the same keywords - the observed construction is that second one
@@ -82,7 +86,9 @@ def obs_c03(case):
     lay = case["lay"]
     P0 = bytes.fromhex(case["P0"])
     m, cls, mid, pbf = lay["m"], lay["cls"], lay["id"], 1 if lay["pbf"] else 0
-    ev = {"prop": "C03", "m": m, "cls": cls, "id": mid, "pbf": pbf, "pre": "", "kw": [], "out": "", "P": [], "back": [], "backidx": []}
+    ev = {"prop": "C03", "m": m, "cls": cls, "id": mid, "pbf": pbf, "pre": "", "kw": [], "out": "", "P": [], "back": [], "backidx": [],
+          # full = every attribute the PARSER reported for P0 is fed back unchanged (the "in particular" clause of the property)
+          "full": 0 if (case.get("synthkw") or case.get("only") is not None or case.get("drop")) else 1}
     if case.get("synthkw"):
         # keyword values decoded from P0 by the harness itself (independent of the library's parser)
         kwargs = synth_kwargs(lay, P0)
@@ -359,4 +365,6 @@ def obs_c03_mt(case):
         os.rmdir(d)
 
 
-OBSERVERS = {"c03mt": obs_c03_mt, "c03": obs_c03, "c15": obs_c15, "c04": obs_c04, "c04cfg": obs_c04_cfg}
+from .optchild import obs_opt_single  # noqa: E402
+
+OBSERVERS = {"c03mt": obs_c03_mt, "c03": obs_c03, "c15": obs_c15, "c04": obs_c04, "c04cfg": obs_c04_cfg, "opt": obs_opt_single}
